@@ -535,8 +535,9 @@ def run_check(prop, tier, master, workers=None, runs_override=None):
 
 def main(argv=None):
     argv = list(sys.argv[1:] if argv is None else argv)
-    if os.environ.get("PYTHONHASHSEED") != "0" or not os.environ.get("VERIF_REEXEC"):
-        env = dict(os.environ, PYTHONHASHSEED="0", PYTHONDONTWRITEBYTECODE="1",
+    want_hs = os.environ.get("VERIF_HASHSEED", "0")
+    if os.environ.get("PYTHONHASHSEED") != want_hs or not os.environ.get("VERIF_REEXEC"):
+        env = dict(os.environ, PYTHONHASHSEED=want_hs, PYTHONDONTWRITEBYTECODE="1",
                    VERIF_REEXEC="1")
         os.chdir(VERIF)
         os.execve(sys.executable, [sys.executable, "-m", "sim.runner"] + argv, env)
@@ -555,10 +556,21 @@ def main(argv=None):
     ap.add_argument("--workers", type=int)
     ap.add_argument("--one", type=int, help="run a single index and print the result")
     ap.add_argument("--scenario")
+    ap.add_argument("--digests", type=int, help="print the trace digest of the first N "
+                    "runs of every scenario (determinism self-test)")
     a = ap.parse_args(argv)
     if a.replay:
         return replay_file(a.replay)
     seed = a.seed if a.seed is not None else int(os.environ.get("VERIF_SEED", DEFAULT_SEED))
+    if a.digests:
+        mod = load_check(a.prop)
+        for scenario in mod.SCENARIOS:
+            for i in range(a.digests):
+                res = one_run(mod, scenario, seed=derive_seed(seed, a.prop, scenario, i))
+                v = res.get("violations") or [{}]
+                print(f"{a.prop} {scenario} {i} {res.get('digest')} {res['tape_len']} "
+                      f"{v[0].get('rule', '-')}")
+        return 0
     if a.one is not None:
         mod = load_check(a.prop)
         scenario = a.scenario or next(iter(mod.SCENARIOS))
